@@ -3,15 +3,24 @@ import steps_C20
 
 ID = "C20"
 PROP = {
-    "modules": ["Gnmi.Props.C20"],
+    "modules": ["Gnmi.Props.C20", "Gnmi.Props.C20More", "Gnmi.Props.C20Fixed"],
     "theorems": ["Gnmi.C20." + t for t in [
         "build_never_fails", "built_inv", "built_vals", "addValue_is_sorted_insert", "sorted_invariant",
         "next_keeps_sorted", "emission_nondecreasing", "emissions_chain", "first_emission_is_configured",
         "delta_bounds", "repeat_at_most", "repeat_exact", "exhausted_stays", "repeat_unbounded", "in_range",
         "accepted_initial_in_range", "sync_after_firsts", "sync_once", "deterministic", "error_is_config",
-        "error_only_on_defect", "exCfg_accepted"]],
+        "error_only_on_defect", "exCfg_accepted",
+        # Props/C20More.lean
+        "dropped_exact", "count_exact", "emitted_all_iff_dropped", "dropped_final", "dropped_count_stays",
+        "unbounded_never_dropped", "unbounded_count_unbounded", "sync_timestamp_exact", "sync_emitted_at_latest",
+        "foldlM_add_latest", "latestFrom_ge", "latestFrom_attained",
+        # Props/C20Fixed.lean (FixedQueue)
+        "run_conservation", "emits_take", "after_drop", "exhausted_nil", "next_no_panic", "next_good",
+        "next_delay_law", "next_last_keeps_delay", "next_nodelay", "nodelay_never_sleeps", "slept_nonneg",
+        "lastTS_mono", "sorted_delays", "stale_delay", "panic_loses_response", "delay_wraps"]],
     "components": [
         {"c": "fq", "quick": {"n": 1500, "exhaustive": True}, "thorough": {"n": 6000, "exhaustive": True, "seeds": 4}},
+        {"c": "fx", "quick": {"n": 1500, "exhaustive": True}, "thorough": {"n": 8000, "exhaustive": True, "seeds": 4}},
     ],
     # classification of divergences (failing input <=> a Go-side, model-independent monitor fails) and
     # the monitor-only search for a failing input when only the tie broke
@@ -60,7 +69,14 @@ PROP = {
                       "no error/panic on accepted configurations and errors only from the listed defects (error_is_config, "
                       "error_only_on_defect), determinism. The model is tied to the Go code by a differential correspondence "
                       "(two real generators + model on shared raw PRNG draws, fake agent in process, math/rand on scripted draws) "
-                      "and by model-independent monitors evaluated on the real generator.",
+                      "and by model-independent monitors evaluated on the real generator. "
+                      "Props/C20More.lean: per-value repeat count in EVERY prefix (dropped_exact: still queued with remaining k and emitted "
+                      "r-k times, or dropped and emitted exactly r times, never again - dropped_final), and the injected sync carries exactly "
+                      "the largest initial timestamp (sync_timestamp_exact, sync_emitted_at_latest). Props/C20Fixed.lean over "
+                      "Model/FixedQueue.lean (fixed_queue.go, tied by the fx correspondence on the real FixedQueue): strict FIFO and "
+                      "exactly the added responses for every Add/Next history (run_conservation), the delay law as coded "
+                      "(next_delay_law, sorted_delays, stale_delay, delay_wraps), no panic unless a nil entry / nil notification is queued "
+                      "with checkDelay (next_no_panic, panic_loses_response).",
         "level_note": "Trusted: Lean kernel (axioms propext, Quot.sound, Classical.choice only), the hand-written model "
                       "Model/FakeQueue.lean as validated by the correspondence harness, Go runtime and math/rand's source (rngSource). "
                       "Assumes no int64 overflow (checked in the model), no NaN, non-zero seed.",
